@@ -1,5 +1,5 @@
 (* C13 -- 100 Continue is sent exactly when asked for and a body is awaited. *)
-From MH Require Import proofs.Limits_proofs proofs.Impl_proofs proofs.ServerRead_proofs.
+From MH Require Import proofs.Limits_proofs proofs.Impl_proofs proofs.ServerRead_proofs proofs.ServerExpect_proofs.
 
 (* a step emits Continue v iff it is the blank line ending a header block with the expect flag
    set and 0 < Content-Length <= L; then it emits exactly that one, carrying the request's version *)
@@ -69,8 +69,43 @@ Theorem C13_server_transfer : forall BUF, (2 <= BUF)%nat -> N.of_nat BUF < U32_L
   end.
 Proof. exact server_read_exact. Qed.
 
+(* server clause, end to end, for clients that keep their connections open: a connection awaiting input whose
+   client has sent bytes; polling while the epoll descriptor signals terminates, and then the client has been
+   sent -- after everything sent before -- exactly the interim responses the specification parser generates on
+   the bytes of the first read (one 100 Continue per Expect head completed, C13_iff), followed only by further
+   server-generated replies to the rest of its input.  The client did not have to send the body. *)
+Theorem C13_server_interim_delivered : forall BUF, (2 <= BUF)%nat -> N.of_nat BUF < U32_LIMIT ->
+  forall w toks fd x ph,
+  Inv BUF w toks -> Calm w -> alookup fd (w_conns w) = Some x -> CInv BUF (sc_conn x) ph -> sc_out x = false ->
+  k_tosrv (client_of w (sc_client x)) <> [] ->
+  let c := sc_conn x in
+  let t := k_tosrv (client_of w (sc_client x)) in
+  let d := firstn (read_amount 0 (BUF - length (c_win c)) (length t)) t in
+  exists n, match drive BUF n w [] with
+            | DQuiet w2 _ =>
+                ready_events w2 = [] /\
+                exists more, Forall server_generated more /\
+                  k_rx (client_of w2 (sc_client x)) =
+                  wire w x ++
+                  flat_map serialize (match runT BUF (c_pmax c) ph (c_win c ++ d) [] with
+                                      | RMore _ _ outs => conts_of outs
+                                      | RErr outs e => conts_of outs ++ [bad_request_response e]
+                                      | ROutOfFuel => []
+                                      end) ++ flat_map serialize more
+            | DOverflow => True
+            | DFuel => False
+            end.
+Proof. exact server_replies_delivered. Qed.
+Example C13_expect_head_example :
+  match drive 1024 8 wX [] with
+  | DQuiet w2 ys => k_rx (client_of w2 0) = serialize (response_new Http11 Continue) /\ ys = [] /\ ready_events w2 = []
+  | _ => False
+  end.
+Proof. exact expect_head_example. Qed.
+
 Print Assumptions C13_iff.
 Print Assumptions C13_early.
 Print Assumptions C13_once.
 Print Assumptions C13_transfer.
 Print Assumptions C13_server_transfer.
+Print Assumptions C13_server_interim_delivered.
